@@ -122,7 +122,8 @@ def record_traces(traces: list, onpolicy: bool) -> list:
                 break
             rec = its[it][0][1]
             iters.append({"stats": [its[it][e][0] for e in range(N)],
-                          "rec": {"n": rec["n_records"], "step": rec["step"], "retN": rec["retN"], "lenN": rec["lenN"]}})
+                          "rec": {"n": rec["n_records"], "step": rec["step"], "retN": rec["retN"], "lenN": rec["lenN"],
+                                  "others": rec.get("others", [])}})
         if iters:
             out.append({"N": N, "iters": iters})
     return out
@@ -145,7 +146,8 @@ def offpolicy_record_traces(traces: list) -> list:
             if rec is None:
                 break
             iters.append({"stats": [envs[e][j]["stats"] for e in range(N)],
-                          "rec": {"n": rec["n_records"], "step": rec["step"], "retN": rec["retN"], "lenN": rec["lenN"]}})
+                          "rec": {"n": rec["n_records"], "step": rec["step"], "retN": rec["retN"], "lenN": rec["lenN"],
+                                  "others": rec.get("others", [])}})
         if iters:
             out.append({"N": N, "iters": iters})
     return out
@@ -264,6 +266,14 @@ def run(ctx: Ctx) -> Report:
         bad["iters"][0]["rec"]["step"] += 1
         if 0 not in tracecheck.validate(ctx, "trace/Trace_LogRecords.tla", [bad], "rec_selftest").rejected:
             raise Machinery("C19 self-test (c) failed")
+        if not all(it["rec"]["others"] for r in recs for it in r["iters"]):
+            raise Machinery("C19 (c): the callback was driven with a single backend; the fan-out clause would be vacuous")
+        bad = copy.deepcopy(recs[0])
+        bad["iters"][0]["rec"]["others"][0][0] += 1
+        st = tracecheck.validate(ctx, "trace/Trace_LogRecords.tla", [bad], "rec_selftest2").rejected
+        if 0 not in st or "EveryBackendGetsEveryRecord" not in st[0][1]:
+            raise Machinery("C19 self-test (c, second backend) failed")
+        rep.parts["C2S_backend_records"]["backends_per_callback"] = 1 + len(recs[0]["iters"][0]["rec"]["others"])
 
     # (d)
     items, ecases = eval_traces(ctx, ctx.pick(12, 60))
